@@ -7,8 +7,11 @@ import (
 	"io"
 	"math/rand"
 	"os"
+	"runtime"
 	"strconv"
 	"sync"
+	"syscall"
+	"time"
 
 	"github.com/PowerDNS/lightningstream/lmdbenv"
 	"github.com/PowerDNS/lmdb-go/lmdb"
@@ -158,7 +161,9 @@ func ParallelFor(n, workers int, f func(i int)) {
 		go func() {
 			defer wg.Done()
 			for i := range ch {
+				stop := watchdog(i)
 				f(i)
+				stop()
 			}
 		}()
 	}
@@ -167,4 +172,25 @@ func ParallelFor(n, workers int, f func(i int)) {
 	}
 	close(ch)
 	wg.Wait()
+}
+
+// watchdog: a work item that does not finish within VERIF_ITEM_TIMEOUT seconds (default 150) is a stuck driver -
+// all goroutine stacks go to stderr and the process exits with status 3 (the check reports "inconclusive", never
+// a violation).
+func watchdog(i int) (stop func()) {
+	secs := 150
+	if v, err := strconv.Atoi(os.Getenv("VERIF_ITEM_TIMEOUT")); err == nil && v > 0 {
+		secs = v
+	}
+	t := time.AfterFunc(time.Duration(secs)*time.Second, func() {
+		buf := make([]byte, 4<<20)
+		n := runtime.Stack(buf, true)
+		fmt.Fprintf(os.Stderr, "WATCHDOG: work item %d still running after %d s; goroutines:\n%s\n", i, secs, buf[:n])
+		if os.Getenv("VERIF_WATCHDOG_QUIT") != "" {
+			syscall.Kill(os.Getpid(), syscall.SIGQUIT) // full runtime dump (with GOTRACEBACK=system)
+			time.Sleep(5 * time.Second)
+		}
+		os.Exit(3)
+	})
+	return func() { t.Stop() }
 }
